@@ -22,7 +22,7 @@ use std::sync::{Arc, Barrier};
 use std::time::Duration;
 
 const MODEL: &str = include_str!("../../data/c20_model.dmn");
-const INVOCABLES: [&str; 7] = ["Num", "Temp", "Re", "ReHeavy", "Table", "Chain", "Svc"];
+const INVOCABLES: [&str; 8] = ["Num", "Temp", "Re", "ReHeavy", "Table", "Chain", "Svc", "Deep"];
 const INPUTS: usize = 64;
 
 fn input(i: usize) -> FeelContext {
@@ -287,7 +287,7 @@ pub fn check(mut ctx: Ctx, replay: Option<J>) -> ! {
   ctx.cov("traces_validated_against_impl", json!(recs.len()));
   ctx.cov("concurrent_runs", json!(recs.len()));
   ctx.cov("calls_compared", json!(calls));
-  ctx.cov("rule", json!("design: Concurrent.tla for the as-built lock pattern under reader- and writer-preferring semantics (must hold) and for two counter-designs (must fail); runs: 2/4/8/16 threads x seeded call sequences over 7 invocables x 64 inputs, every value compared by TLC with the value of the same call made alone; prediction: every interleaving of the lock operations hook H4 recorded for 2 (thorough: 3) threads"));
+  ctx.cov("rule", json!("design: Concurrent.tla for the as-built lock pattern under reader- and writer-preferring semantics (must hold) and for two counter-designs (must fail); runs: 2/4/8/16 threads x seeded call sequences over 8 invocables x 64 inputs, every value compared by TLC with the value of the same call made alone; prediction: every interleaving of the lock operations hook H4 recorded for 2 (thorough: 3) threads"));
   ctx.sample(json!({"n": recs[0]["n"], "seed": recs[0]["seed"], "first_events": recs[0]["events"].as_array().map(|a| a.iter().take(3).cloned().collect::<Vec<_>>())}));
   ctx.assume("real schedules are sampled (seeded start barriers, yields, spins), not enumerated; TLC enumerates the interleavings of the model and of the recorded lock scripts");
   ctx.assume("hook H4 (traced RwLock) is compiled in; the runs with value comparison leave the lock trace switched off");
